@@ -444,6 +444,135 @@ theorem fg_quiescence_reachable (m : κ → α → Bool) (o : Opts) (q : κ) (sr
   rw [hfeq, hsim]
   exact ⟨rfl, hquiet.1, hquiet.2⟩
 
+
+def PC.inSelect : PC → Bool
+  | .s1 => true
+  | .s2 _ => true
+  | .s3 _ _ => true
+  | _ => false
+
+/-- once the interactive session has been chosen: both options are off and M is not inside the select check -/
+def Chosen (f : FSt α κ) : Prop :=
+  f.s.decision = some .interactive ∧ f.s.select1 = false ∧ f.s.exit0 = false ∧ f.pc.inSelect = false
+
+theorem hbFinish_opts (s : St α κ) (rs ic : Bool) :
+    (hbFinish s rs ic).decision = s.decision ∧ (hbFinish s rs ic).select1 = s.select1 ∧ (hbFinish s rs ic).exit0 = s.exit0 := by
+  unfold hbFinish; simp only []
+  split <;> split <;> first | exact ⟨rfl, rfl, rfl⟩ | exact ⟨(restart_opts _).1, (restart_opts _).2.1, (restart_opts _).2.2.1⟩
+
+theorem chosen_mstep (f f' : FSt α κ) (rd : Bool) (hs : mstep f rd = some f') (h : Chosen f) : Chosen f' := by
+  obtain ⟨hd, h1, h0, hp⟩ := h
+  unfold mstep at hs
+  split at hs
+  · cases hs
+  · cases hpc : f.pc with
+    | idle =>
+      simp only [hpc] at hs
+      split at hs
+      · cases hs
+      · cases hs; exact ⟨hd, h1, h0, rfl⟩
+      · cases hs
+        obtain ⟨a, b, c, _⟩ := handleUser_opts ({ f.s with queue := _ } : St α κ) _
+        exact ⟨a.trans hd, b.trans h1, c.trans h0, rfl⟩
+    | hb1 => simp only [hpc] at hs; cases hs; exact ⟨hd, h1, h0, rfl⟩
+    | hb2 rs => simp only [hpc] at hs; cases hs; exact ⟨hd, h1, h0, rfl⟩
+    | hb3 rs ms =>
+      simp only [hpc] at hs; cases hs
+      obtain ⟨a, b, c, _⟩ := hbHarvest_opts f.s rs ms
+      exact ⟨a.trans hd, b.trans h1, c.trans h0, rfl⟩
+    | hb4 rs => simp only [hpc] at hs; cases hs; exact ⟨hd, h1, h0, rfl⟩
+    | hb5 rs ic =>
+      simp only [hpc] at hs; cases hs
+      obtain ⟨a, b, c⟩ := hbFinish_opts f.s rs ic
+      refine ⟨a.trans hd, b.trans h1, c.trans h0, ?_⟩
+      simp [b.trans h1, c.trans h0, PC.inSelect]
+    | s1 => rw [hpc] at hp; simp [PC.inSelect] at hp
+    | s2 ic' => rw [hpc] at hp; simp [PC.inSelect] at hp
+    | s3 ic' rs' => rw [hpc] at hp; simp [PC.inSelect] at hp
+
+theorem chosen_fstep (m : κ → α → Bool) (f f' : FSt α κ) (l : FLabel α κ) (hs : fstep m f l = some f')
+    (h : Chosen f) : Chosen f' := by
+  cases l with
+  | m rd => exact chosen_mstep f f' rd hs h
+  | foreign l =>
+    cases hl : l.isLoop with
+    | true => cases l <;> simp_all [Label.isLoop, fstep]
+    | false =>
+      have e : fstep m f (.foreign l) = (step m f.s l).map (fun s' => { f with s := s' }) := by
+        cases l <;> simp_all [Label.isLoop, fstep]
+      rw [e] at hs
+      cases hst : step m f.s l with
+      | none => rw [hst] at hs; cases hs
+      | some s' =>
+        rw [hst] at hs; cases hs
+        obtain ⟨_, a, b, c, _⟩ := foreign_frame m f.s s' l hl hst
+        exact ⟨a.trans h.1, b.trans h.2.1, c.trans h.2.2.1, h.2.2.2⟩
+
+/-- the step that chooses the interactive session leaves M outside the select check with both options off -/
+theorem chosen_of_decision (m : κ → α → Bool) (f f' : FSt α κ) (l : FLabel α κ) (hs : fstep m f l = some f')
+    (hne : f.s.decision ≠ some .interactive) (hd : f'.s.decision = some .interactive) : Chosen f' := by
+  cases l with
+  | foreign l =>
+    exfalso
+    cases hl : l.isLoop with
+    | true => cases l <;> simp_all [Label.isLoop, fstep]
+    | false =>
+      have e : fstep m f (.foreign l) = (step m f.s l).map (fun s' => { f with s := s' }) := by
+        cases l <;> simp_all [Label.isLoop, fstep]
+      rw [e] at hs
+      cases hst : step m f.s l with
+      | none => rw [hst] at hs; cases hs
+      | some s' =>
+        rw [hst] at hs; cases hs
+        have := (foreign_frame m f.s s' l hl hst).2.1
+        exact hne (this ▸ hd)
+  | m rd =>
+    rcases fg_mstep_decision f f' rd hs with h | ⟨ic', rs', hpc, _, _, _, he⟩
+    · exact absurd (h ▸ hd) hne
+    · have hpc' : f'.pc = .idle := by
+        have hs' : mstep f rd = some f' := hs
+        unfold mstep at hs'
+        split at hs'
+        · cases hs'
+        · simp only [hpc] at hs'; cases hs'; rfl
+      rw [he] at hd
+      refine ⟨by rw [he]; exact hd, ?_, ?_, by rw [hpc']; rfl⟩
+      · rw [he]; unfold decide1 at hd ⊢; simp only [] at hd ⊢
+        split at hd
+        · cases hd
+        · split at hd
+          · cases hd
+          · rename_i c1 c2; simp [c1, c2]
+      · rw [he]; unfold decide1 at hd ⊢; simp only [] at hd ⊢
+        split at hd
+        · cases hd
+        · split at hd
+          · cases hd
+          · rename_i c1 c2; simp [c1, c2]
+
+/-- C14, last clause, at read granularity: once the interactive session has been chosen, no step of any thread — M's
+    micro-steps included — changes the decision again, in any continuation. -/
+theorem fg_never_later (m : κ → α → Bool) (f : FSt α κ) (h : Chosen f) (ls : List (FLabel α κ)) :
+    (frun m f ls).s.decision = some .interactive := by
+  have : Chosen (frun m f ls) := by
+    induction ls generalizing f with
+    | nil => exact h
+    | cons l ls ih =>
+      unfold frun; simp only [List.foldl_cons]
+      apply ih
+      cases hs : fstep m f l with
+      | none => exact h
+      | some f' => exact chosen_fstep m f f' l hs h
+  exact this.1
+
+/-- identities at read granularity: wherever `Inv` holds (every program point outside the harvest-to-restart window) and no
+    clear is pending, every listed entry `(i, x)` is the item at input position `i` and satisfies the current query -/
+theorem fg_item_index (m : κ → α → Bool) (o : Opts) (q : κ) (src : List α) (ls : List (FLabel α κ)) :
+    let f := frun m (finit o q src) ls
+    f.pc.stable = true → f.s.clear = .dont → ∀ e ∈ f.s.list, f.s.pool.pool[e.1]? = some e.2 ∧ m f.s.q e.2 = true := by
+  intro f hp hcl
+  exact item_index_of_inv m f.s (inv_of_stable m f (fg_invariant m o q src ls) hp) hcl
+
 /-! ### The premises are met: a concrete history with steps of the reader, the timer and the matcher thread between
 M's micro-steps (kernel-evaluated) -/
 
